@@ -8,7 +8,10 @@ out = tempfile.mkdtemp(prefix="vbase")
 xml = os.path.join(out, "junit.xml")
 env = dict(os.environ)
 env.pop("BASILISP_VERIF", None)
-cmd = f"cd /repo && /venv/bin/python -m pytest -ra -q -p no:cacheprovider --timeout=900 --continue-on-collection-errors --junitxml={xml} " + " ".join(sys.argv[1:])
+repo = os.environ.get("VERIF_REPO", "/repo")
+if repo != "/repo":
+    env["PYTHONPATH"] = os.path.join(repo, "src")
+cmd = f"cd {repo} && /venv/bin/python -m pytest -ra -q -p no:cacheprovider --timeout=900 --continue-on-collection-errors --junitxml={xml} " + " ".join(sys.argv[1:])
 r = subprocess.run(cmd, shell=True, env=env, stdout=subprocess.PIPE, stderr=subprocess.STDOUT)
 log = r.stdout.decode(errors="replace")
 passed = set()
